@@ -212,7 +212,8 @@ func (s *Datastore) read(ctx context.Context, store string, filter storage.ReadF
 				"user_object_id": userObjectID,
 			})
 		}
-		if userRelation != "" {
+		if userRelation != "" || userObjectID != "" {
+			// "type:id" names the object itself, not the usersets "type:id#relation".
 			sb = sb.Where(sq.Eq{
 				"user_relation": userRelation,
 			})
@@ -817,12 +818,12 @@ func (s *Datastore) ReadStartingWithUser(
 	var targetUsersArg sq.Or
 	for _, u := range filter.UserFilter {
 		userObjectType, userObjectID, userRelation := tupleUtils.ToUserPartsFromObjectRelation(u)
+		// A user filter without relation names the object itself ("type:id"), whose rows carry an
+		// empty user_relation; it must not match the usersets "type:id#relation".
 		targetUser := sq.Eq{
 			"user_object_type": userObjectType,
 			"user_object_id":   userObjectID,
-		}
-		if userRelation != "" {
-			targetUser["user_relation"] = userRelation
+			"user_relation":    userRelation,
 		}
 		targetUsersArg = append(targetUsersArg, targetUser)
 	}
